@@ -14,6 +14,9 @@ class _StubSelector:
 
     def select(self, timeout=None):
         lp = self.loop
+        lp._spins += 1
+        if lp._spins > 2000000:
+            raise RuntimeError('VLoop livelock: %d select calls in one run' % lp._spins)
         if timeout is not None and timeout <= 0:
             return []
         if timeout is None:
@@ -41,10 +44,11 @@ class VLoop(asyncio.BaseEventLoop):
     def __init__(self, clock):
         super().__init__()
         self._clock = clock
-        self._clock_resolution = 1e-9
+        self._clock_resolution = 2.0 ** -32    # one ulp in [2^20, 2^21)
         self._selector = _StubSelector(self)
         self._horizon = clock.now
         self._idle = False
+        self._spins = 0
         self.errors = []          # unhandled task exceptions etc.
         self.set_exception_handler(self._on_error)
 
@@ -72,6 +76,7 @@ class VLoop(asyncio.BaseEventLoop):
     def run_until(self, target):
         self._horizon = max(target, self._clock.now)
         self._idle = False
+        self._spins = 0
         # make sure the loop goes through select at least once
         self.run_forever()
         while not self._idle:      # stop() called by somebody else
